@@ -174,7 +174,18 @@ Definition mismatch (c : case) : bool :=
 
 (* a failure counts as the RECORDED finding only when the model - which reproduces that finding - predicts exactly what the
    implementation did on this case; any further deviation makes it a new failure with this input as the replay *)
-Definition known (c : case) : bool := kf_oso c && negb (mismatch c).
+(* worlds in which some environment is not a literal (references, builtins, providers): [flat] gives such an environment no
+   layers, so kf_oso cannot see a cut that travels through a reference (theorem C01g_hidden_cut: F y: 5; E imports [F]
+   y: {c: 3}, x: ${y}; G x: {b: 2}; D imports [G, E] gives x = {c: 3}).  There the class is delimited by the theorems instead:
+   C01g_general proves the fold for the MODEL whenever its decidable chain condition groups_compat holds, and
+   C01g_ccompat_false_class shows that the condition fails only on the object / non-object-or-unknown / object pattern of
+   C01-assoc; so a fold failure on which the implementation agrees with the model is that finding. *)
+Definition env_literal (d : envdef) : bool :=
+  match lit_json wire_fuel (EObj (ed_values d)) with Some _ => true | None => false end.
+Definition has_nonliteral_env (c : case) : bool :=
+  existsb (fun ne => match snd ne with LoadOk d => negb (env_literal d) | _ => false end) (w_envs (c_world c)).
+
+Definition known (c : case) : bool := (kf_oso c || has_nonliteral_env c) && negb (mismatch c).
 Definition spec_fail_new (c : case) : bool := spec_fail c && negb (known c).
 Definition spec_fail_known (c : case) : bool := spec_fail c && known c.
 Definition nontrivial (c : case) : bool := negb (Nat.eqb (length (ed_imports (c_def c))) 0).
